@@ -872,8 +872,14 @@ fn make_addr(family: AddrFamily, scratch: &Scratch, tag: &str, name_len: u8) -> 
         }
         AddrFamily::UnixAbstract => {
             let mut name = format!("a10verif-{}-{tag}{n}-", std::process::id()).into_bytes();
+            // Abstract names are plain bytes: every third name is padded with
+            // NUL bytes (and so ends in one), the others with letters.
+            let pad = if name_len % 3 == 0 { 0 } else { b'x' };
+            if name_len % 3 == 0 {
+                name.push(0);
+            }
             while name.len() < name_len as usize {
-                name.push(b'x');
+                name.push(pad);
             }
             AnyAddr::Unix(std::os::unix::net::SocketAddr::from_abstract_name(&name).unwrap(), None)
         }
